@@ -12,8 +12,7 @@ import sys
 from . import _common
 
 AREA = 'kdf'
-MODULES = ['_MD5', '_SHA1', '_SHA224', '_SHA256', '_SHA384', '_SHA512', '_RIPEMD160', '_keccak', '_BLAKE2s', '_scrypt', '_Salsa20', '_raw_blowfish', '_raw_eksblowfish',
-           '_raw_ecb', '_raw_aes', '_raw_aesni', '_strxor', '_cpuid_c', '_MD2', '_MD4']
+MODULES = None      # rebuild every extension module of setup.py (about 3 s): nothing stale can be reached indirectly
 
 HL = {'MD5': 'md5', 'SHA1': 'sha1', 'SHA224': 'sha224', 'SHA256': 'sha256', 'SHA384': 'sha384', 'SHA512': 'sha512', 'RIPEMD160': 'ripemd160',
       'SHA3_256': 'sha3_256', 'SHA3_512': 'sha3_512'}
